@@ -6,7 +6,7 @@ import ast
 from ..cfg import NORMAL, ALL, walk_local
 from ..facts import (cfg_of, call_name, calls_in, targets_of, guard_atoms,
                      is_attr, is_name, enclosing, local_assigns, kwarg,
-                     const_value, strip_await, resolve_local)
+                     const_value, strip_await, resolve_local, eval_static)
 from ..loader import txt, AnchorError
 from .. import tables
 
@@ -202,17 +202,11 @@ def r132(ctx, f, table) -> None:
     ok = False
     if len(rets) == 1:
         e = rets[0].value
-        names = {}
-        for nm in ('has_flag', 'expected'):
-            names[nm] = nm
         try:
-            code = compile(ast.Expression(e), '<r>', 'eval')
-            tt = all(bool(eval(code, {'__builtins__': {}},
-                               {'has_flag': h, 'expected': x,
-                                'self': None})) == (h == x)
+            ok = all(bool(eval_static(e, {'has_flag': h, 'expected': x}))
+                     == (h == x)
                      for h in (False, True) for x in (False, True))
-            ok = tt
-        except Exception:
+        except ValueError:
             ok = False
     has_src = any(isinstance(v, ast.Compare) and isinstance(
         v.ops[0], ast.In) and txt(v.left) == 'self.flag'
